@@ -1161,9 +1161,16 @@ func runC14(args []string) error {
 				case 0:
 					idstr = strings.ToUpper(idstr)
 				case 1:
-					idstr = idstr[:r.Intn(len(idstr))]
+					if len(idstr) > 0 {
+						idstr = idstr[:r.Intn(len(idstr))]
+					}
 				case 2:
-					idstr = PickS(r, []string{"", "zz", "0", idstr + "00", idstr[:10] + "zz" + idstr[12:]})
+					// (the rendering of an id is 64 hex digits in the code as it is; a changed rendering must not crash the harness)
+					mid := idstr + "zz"
+					if len(idstr) >= 12 {
+						mid = idstr[:10] + "zz" + idstr[12:]
+					}
+					idstr = PickS(r, []string{"", "zz", "0", idstr + "00", mid})
 				case 3:
 					idstr = rid(r).String()
 				}
